@@ -17,9 +17,11 @@ RULE = ("(transform) every parameter set with n <= 3 markets over volatility {0,
         "correlation {-1/2,-1/4,0,1/2,3/4} (positive-definite only) with the normal source replaced by a stub: z = 0, every basis "
         "vector, and all z in {-1,0,1}^n; (history) breadth-first search over sequences of clock advance, drift/volatility/"
         "correlation changes and shocks on a real Fundamentals object driving real Markets, generation chunk 3 and 100; "
-        "distinct = parameter sets / canonical history states")
+        "(runner) every two-market configuration over {marketPrice, fundamentalPrice, both, both through extends} x drift x volatility x "
+        "pairwise correlation (either name order) run through the real runner and compared, for the same noise, with a generator built "
+        "by hand from the configuration; distinct = parameter sets / canonical history states")
 WIT = ["correlation_given_in_reverse_order", "zero_noise_path", "basis_probe", "affine_probe", "correlated_pair", "zero_vol_market_ignores_z", "hist_shock",
-       "hist_param_change", "hist_advance_across_chunk", "hist_past_values_compared", "hist_continuation_checked", "hist_volatility_changed_between_nonzero_values", "hist_joint_noise_vector_two_volatile_markets", "late_start_cases"]
+       "hist_param_change", "hist_advance_across_chunk", "hist_past_values_compared", "hist_continuation_checked", "hist_volatility_changed_between_nonzero_values", "hist_joint_noise_vector_two_volatile_markets", "late_start_cases", "runner_configurations", "runner_correlated_pair"]
 VOL = [0, 0.125, 0.25, 0.5]
 DR = [-2.0 ** -6, 0, 2.0 ** -7]
 CO = [-0.5, -0.25, 0, 0.5, 0.75]
@@ -365,8 +367,90 @@ def history_search(res, chunk, depth, seed):
         w[k] = w.get(k, 0) + v
 
 
+# ------------------------------------------------------------------------------------------------
+# the runner's wiring of the configuration into the generator
+
+
+def runner_cases():
+    specs = ("mp", "fp", "both", "both_ext")
+    per_market = [(ps, d, v) for ps in specs for d in (0.0, 2.0 ** -7) for v in (0.0, 0.125)]
+    for a in per_market:
+        for b in per_market:
+            corrs = [None]
+            if a[2] > 0 and b[2] > 0:
+                corrs += [("A", "B", 0.5), ("B", "A", -0.25)]
+            for c in corrs:
+                yield (a, b, c)
+
+
+def runner_fn(case, wit):
+    """a configuration run through the real runner must produce the fundamental paths that a generator built by hand
+    from the same configuration produces from the same noise (the generator itself is covered by the other grids)"""
+    from pams.runners.sequential import SequentialRunner
+    a, b, corr = case
+    cfg = {"simulation": {"markets": ["A", "B"], "agents": ["F"],
+                          "sessions": [{"sessionName": 0, "iterationSteps": 4, "withOrderPlacement": True, "withOrderExecution": True,
+                                        "withPrint": False, "maxNormalOrders": 1}]},
+           "F": {"class": "FCNAgent", "numAgents": 1, "markets": ["A", "B"], "cashAmount": 10000, "assetVolume": 50,
+                 "fundamentalWeight": 1.0, "chartWeight": 0.0, "noiseWeight": 0.0, "noiseScale": 0.001, "timeWindowSize": 3, "orderMargin": 0.0}}
+    expect = {}
+    for name, (ps, d, v), mp, fp in (("A", a, 300.0, 500.0), ("B", b, 120.0, 80.0)):
+        blk = {"class": "Market", "tickSize": 0.5}
+        if ps in ("mp", "both"):
+            blk["marketPrice"] = mp
+        if ps in ("fp", "both"):
+            blk["fundamentalPrice"] = fp
+        if ps == "both_ext":
+            cfg[name + "Base"] = {"class": "Market", "tickSize": 0.5, "marketPrice": mp}
+            blk = {"extends": name + "Base", "fundamentalPrice": fp}
+        if d:
+            blk["fundamentalDrift"] = d
+        if v:
+            blk["fundamentalVolatility"] = v
+        cfg[name] = blk
+        expect[name] = dict(init=(fp if ps != "mp" else mp), price0=(mp if ps != "fp" else fp), drift=d, vol=v)
+    if corr is not None:
+        cfg["simulation"]["fundamentalCorrelations"] = {"pairwise": [list(corr)]}
+    r = SequentialRunner(cfg, random.Random(1), None)
+    r._setup()
+    sim = r.simulator
+    ref = Fundamentals(prng=random.Random(0))
+    ids = {}
+    for name in ("A", "B"):
+        m = sim.name2market[name]
+        ids[name] = m.market_id
+        ref.add_market(m.market_id, expect[name]["init"], expect[name]["drift"], expect[name]["vol"])
+    if corr is not None:
+        ref.set_correlation(ids[corr[0]], ids[corr[1]], corr[2])
+    sim.fundamentals._np_prng = np.random.default_rng(20240)
+    ref._np_prng = np.random.default_rng(20240)
+    r._run()
+    for name in ("A", "B"):
+        m = sim.name2market[name]
+        e = expect[name]
+        got0 = m.get_market_price(0)
+        if got0 != e["price0"]:
+            raise Violation("C12.runner_market_price", "a market's initial market price is not the configured marketPrice (fundamentalPrice when absent)",
+                            "%s: got %r expected %r (%s)" % (name, got0, e["price0"], case))
+        for t in range(0, 5):
+            got, want = m.get_fundamental_price(t), ref.get_fundamental_price(m.market_id, t)
+            if got != want:
+                raise Violation("C12.runner_wiring", "a configuration run through the runner does not give the fundamental path that the configured initial value, drift, volatility and correlation give for the same noise",
+                                "market %s t=%d: got %r expected %r | %s" % (name, t, got, want, case))
+            if e["vol"] == 0.0:
+                w_ = e["init"] * math.exp(e["drift"] * t)
+                if abs(got - w_) > 1e-12 * w_:
+                    raise Violation("C12.runner_wiring", "a zero-volatility market configured through the runner does not follow initial x exp(drift x t)",
+                                    "market %s t=%d: got %r expected %r | %s" % (name, t, got, w_, case))
+    wit.inc("runner_configurations")
+    if corr is not None:
+        wit.inc("runner_correlated_pair")
+    return (a[0], b[0], a[1:], b[1:], corr is not None)
+
+
 def run(tier, seed):
     res = common.Result("C12", tier, seed)
+    run_grid(res, "runner_wiring", list(runner_cases()), runner_fn, seed)
     run_grid(res, "transform", list(transform_cases(3 if tier == "quick" else 3)), transform_fn, seed)
     run_grid(res, "late_start", list(late_start_cases()), late_start_fn, seed)
     for chunk, dq, dt in ((3, 5, 7), (100, 4, 6)):
@@ -380,6 +464,17 @@ def run(tier, seed):
 
 
 def replay(payload):
+    if payload.get("grid") == "runner_wiring":
+        def tp(x):
+            return tuple(tp(y) for y in x) if isinstance(x, list) else x
+        try:
+            runner_fn(tp(payload["case"]), Counter())
+        except Violation as v:
+            print("  ==> VIOLATION %s: %s" % (v.monitor, v.msg))
+            print("VIOLATION property=C12 replay=(this file)")
+            return 1
+        print("replay: no violation on this tree")
+        return 0
     if payload.get("grid") == "late_start":
         c = payload["case"]
         try:
